@@ -123,14 +123,23 @@ def run_case(method, factors, outside, arr, itype="image"):
     unit = 0
     if kind == "float":
         unit = frac_bits_of(arr, outside) + EXTRA_FRAC_BITS
-    small = dt.name in ("uint8", "uint16") and (outside is None or 0 <= exact(outside) < (1 << 30))
+    small = dt.name in ("uint8", "uint16") and (outside is None or 0 <= exact(outside) < (1 << 28))
     enc = "nat" if small else "sm"
+    # integer data with a non-integer (dyadic) outside value: data and outside value travel in
+    # units of 2^-ubits, the result elements stay plain integers (Downscale!UBits)
+    ubits = 0
+    averaging = method == "average" or (method == "auto" and itype == "image")
+    if kind == "int" and averaging and outside is not None and exact(outside).denominator != 1:
+        ubits = exact(outside).denominator.bit_length() - 1
+    in_unit = unit + ubits
     case = {"method": method, "f": [int(x) for x in factors],
             "pad": "edge" if outside is None else "const",
-            "ov": _enc(exact(0 if outside is None else outside), unit, enc),
+            "ov": _enc(exact(0 if outside is None else outside), in_unit, enc),
             "kind": kind, "enc": enc, "dtype": dt.name, "itype": itype, "shape": list(arr.shape),
-            "data": [_enc(exact(x), unit, enc) for x in arr.ravel().tolist()],
+            "data": [_enc(exact(x), in_unit, enc) for x in arr.ravel().tolist()],
             "exc": "", "oshape": [], "odtype": "", "out": []}
+    if ubits:
+        case["u"] = ubits
     rec = {"method": method, "factors": list(factors), "outside": outside, "dtype": dt.name,
            "shape": list(arr.shape), "unit_bits": unit, "out": None, "itype": itype}
     before = arr.copy()
@@ -153,8 +162,8 @@ def run_case(method, factors, outside, arr, itype="image"):
         if enc == "nat" and any(isinstance(e, list) for e in out):
             # cannot happen for uint8/uint16 results; keep the case well-typed
             case["enc"] = "sm"
-            case["ov"] = _enc(exact(0 if outside is None else outside), unit, "sm")
-            case["data"] = [_enc(exact(x), unit, "sm") for x in arr.ravel().tolist()]
+            case["ov"] = _enc(exact(0 if outside is None else outside), in_unit, "sm")
+            case["data"] = [_enc(exact(x), in_unit, "sm") for x in arr.ravel().tolist()]
             out = [e if isinstance(e, list) else [0, bits(e)] for e in out]
         case["out"] = out
         rec["out"] = res
@@ -176,6 +185,14 @@ def outside_values(dtype):
     if np.dtype(dtype).kind == "f":
         return [None, 0.0, 7.0, -2.5]
     return [None, 0, 7, type_max(dtype)]
+
+
+def outside_values_fractional(dtype):
+    """non-integer outside values inside the range of an integer data type
+    (--outside-value is parsed as a float): fully judged, the mean of a border
+    block being exact in rationals (halves, quarters; next to 0 and to the top)"""
+    mx = type_max(dtype)
+    return [0.5, 100.5, 7.25, mx - 0.5] if mx < 2 ** 40 else [0.5, 100.5, 7.25]
 
 
 def outside_values_out_of_type(dtype):
